@@ -107,6 +107,39 @@ func (e *Exec) invoke(t *Thread, f *Frame, clo *Closure, args []Value, call *ssa
 		}
 		return finish(res)
 	}
+	if clo.Fn.String() == "(*sync.Once).Do" {
+		o := e.syncObj(args[0].(Ptr))
+		if !granted {
+			t.pend = &pending{kind: pkOnce, mu: o}
+			if undo != nil {
+				undo()
+			}
+			return stPark
+		}
+		st := e.sync(o)
+		e.Stats.Stubs["(*sync.Once).Do"] = true
+		vcJoin(&t.vc, st.vc)
+		e.tick(t)
+		if st.done {
+			return finish(nil)
+		}
+		st.busy = true
+		fn, _ := args[1].(*Closure)
+		if fn == nil {
+			e.goPanic("nil func in Once.Do")
+		}
+		var cv ssa.Value
+		if call != nil {
+			cv = call
+		}
+		nf := e.pushCall(t, fn, nil, cv, rk)
+		nf.onDone = func(Value) {
+			st.done, st.busy = true, false
+			e.tick(t)
+			st.vc = vcCopy(t.vc)
+		}
+		return stCont
+	}
 	if s, ok := e.stubFor(clo.Fn); ok {
 		e.Stats.Stubs[clo.Fn.String()] = true
 		res, ok := s(e, t, args, granted)
